@@ -357,7 +357,7 @@ func runC05(r *fw.Run) {
 	r.Count("core_trees", int64(len(core)))
 	r.Count("exhaustive_core_complete", 1)
 	g := &IDLGen{R: rand.New(rand.NewSource(r.Seed))}
-	nrand := r.Pick(500, 20000)
+	nrand := r.Pick(500, 150000)
 	for i := 0; i < nrand; i++ {
 		var d *Desc
 		if i%10 == 0 {
@@ -393,7 +393,7 @@ func runC05(r *fw.Run) {
 			cases = append(cases, &c05Case{Desc: docd, Style: st, Final: f, LSeed: 1, Source: "docs"})
 		}
 	}
-	for k := 0; k < r.Pick(200, 2000); k++ {
+	for k := 0; k < r.Pick(200, 20000); k++ {
 		cases = append(cases, &c05Case{Desc: docd, Style: 4, Final: rng.Intn(numFinalStyles), LSeed: rng.Int63(), Source: "docs"})
 	}
 
